@@ -20,25 +20,25 @@ Local Close Scope string_scope.
 
 (* file_line / inline_origin_line: tag, space1, decimal_u32, space1, rest *)
 Definition idx_line (tag : bytes) (s : bytes) : option (N * bytes) :=
-  match tag_sp tag s with
+  match tag_spn tag s with
   | Some r => match decimal_u32 r with
-              | Some (idx, r2) => match space1 r2 with Some name => Some (idx, name) | None => None end
+              | Some (idx, r2) => match space1n r2 with Some name => Some (idx, name) | None => None end
               | None => None
               end
   | None => None
   end.
 
-Definition opt_m (s : bytes) : bytes := match tag_sp t_m s with Some r => r | None => s end.
+Definition opt_m (s : bytes) : bytes := match tag_spn t_m s with Some r => r | None => s end.
 
 (* public_line: address (hex u64, truncated to u32), parameter size (hex u32), name *)
 Definition public_line (s : bytes) : option (N * bytes) :=
-  match tag_sp t_PUBLIC s with
+  match tag_spn t_PUBLIC s with
   | Some r =>
       match hex_u64 (opt_m r) with
       | Some (addr, r2) =>
-          match space1 r2 with
+          match space1n r2 with
           | Some r3 => match hex_u32 r3 with
-                       | Some (_, r4) => match space1 r4 with Some name => Some (addr mod 4294967296, name) | None => None end
+                       | Some (_, r4) => match space1n r4 with Some name => Some (addr mod 4294967296, name) | None => None end
                        | None => None end
           | None => None end
       | None => None end
@@ -47,17 +47,17 @@ Definition public_line (s : bytes) : option (N * bytes) :=
 
 (* func_line: address, size, parameter size (all hex u32), name *)
 Definition func_line (s : bytes) : option (N * N * bytes) :=
-  match tag_sp t_FUNC s with
+  match tag_spn t_FUNC s with
   | Some r =>
       match hex_u32 (opt_m r) with
       | Some (addr, r2) =>
-          match space1 r2 with
+          match space1n r2 with
           | Some r3 =>
               match hex_u32 r3 with
               | Some (size, r4) =>
-                  match space1 r4 with
+                  match space1n r4 with
                   | Some r5 => match hex_u32 r5 with
-                               | Some (_, r6) => match space1 r6 with Some name => Some (addr, size, name) | None => None end
+                               | Some (_, r6) => match space1n r6 with Some name => Some (addr, size, name) | None => None end
                                | None => None end
                   | None => None end
               | None => None end
@@ -68,16 +68,16 @@ Definition func_line (s : bytes) : option (N * N * bytes) :=
 
 (* module_line: MODULE os cpu debug_id name; the debug id must be accepted by DebugId::from_breakpad (32..40 hex digits) *)
 Definition module_line_ok (s : bytes) : bool :=
-  match tag_sp t_MODULE s with
+  match tag_spn t_MODULE s with
   | Some r =>
       let '(os, r1) := non_space r in
-      match space1 r1 with
+      match space1n r1 with
       | Some r2 =>
           let '(cpu, r3) := non_space r2 in
-          match space1 r3 with
+          match space1n r3 with
           | Some r4 =>
               let '(id, r5) := non_space r4 in
-              match space1 r5 with
+              match space1n r5 with
               | Some _ => all_hex id && (32 <=? N.of_nat (List.length id)) && (N.of_nat (List.length id) <=? 40)
               | None => false end
           | None => false end
